@@ -95,6 +95,186 @@ impl Message {
 //@@ end
 }
 
+
+// ---------------------------------------------------------------------------------------------------------------
+// decoding side: the visitor that rebuilds a Message from the stream of (descriptor, value) pairs
+
+//@@ trusted the serde SeqAccess handed to the Message visitor is a stand-in over a ghost stream of tokens (descriptor code, section value): next_element::<Field>() yields the Field that FieldVisitor::visit_u64 (under contract here) gives for the next descriptor code, next_element::<Section>() yields a value with the identity of the next value token provided its kind is that section type's, Ok(None) only at the end of the stream; either may fail instead
+//@@ trusted the body is one opaque value whatever its kind (a batch of Data / AmqpSequence sections is decoded inside the body type's own Deserialize impl, not under contract); FieldVisitor::visit_str (symbolic descriptors) is not under contract
+pub enum Token { Desc(u64), Val(Emitted) }
+//@@ type file=fe2o3-amqp-types/src/messaging/message/mod.rs kind=enum name=Field
+//@@ end
+/// AMQP 1.0 part 3, 3.2.1 - 3.2.9: the descriptor codes of the message sections
+pub open spec fn field_of_code(c: u64) -> Option<Field> {
+    if c == 0x70 { Some(Field::Header) } else if c == 0x71 { Some(Field::DeliveryAnnotations) } else if c == 0x72 { Some(Field::MessageAnnotations) }
+    else if c == 0x73 { Some(Field::Properties) } else if c == 0x74 { Some(Field::ApplicationProperties) }
+    else if 0x75 <= c <= 0x77 { Some(Field::Body) } else if c == 0x78 { Some(Field::Footer) } else { None }
+}
+pub open spec fn kind_of_field(f: Field) -> int {
+    match f { Field::Header => 0, Field::DeliveryAnnotations => 1, Field::MessageAnnotations => 2, Field::Properties => 3, Field::ApplicationProperties => 4, Field::Body => 5, Field::Footer => 6 }
+}
+pub trait Elem: Sized { spec fn matches(self, t: Token) -> bool; }
+impl Elem for Field { open spec fn matches(self, t: Token) -> bool { t is Desc && field_of_code(t->Desc_0) == Some(self) } }
+impl<T: Sect> Elem for T { open spec fn matches(self, t: Token) -> bool { t is Val && t->Val_0.kind == T::kind() && t->Val_0.id == self.id() } }
+pub struct SeqS { pub rest: Ghost<Seq<Token>> }
+impl SeqS {
+    #[verifier::external_body]
+    pub fn next_element<T: Elem>(&mut self) -> (r: Result<Option<T>, SerError>)
+        ensures (match r {
+            Ok(Some(v)) => old(self).rest@.len() > 0 && v.matches(old(self).rest@[0]) && final(self).rest@ == old(self).rest@.drop_first(),
+            Ok(None) => old(self).rest@.len() == 0 && final(self).rest@ == old(self).rest@,
+            Err(_) => true,
+        }),
+    { unimplemented!() }
+}
+impl SerError { #[verifier::external_body] pub fn custom(msg: &str) -> (r: SerError) { unimplemented!() } }
+#[verifier::external_body]
+pub fn from_empty_body() -> (r: Result<Body, SerError>) { unimplemented!() }
+
+/// the identities of the sections of a message under construction, by kind 0..=6
+pub struct St { pub s0: Option<int>, pub s1: Option<int>, pub s2: Option<int>, pub s3: Option<int>, pub s4: Option<int>, pub s5: Option<int>, pub s6: Option<int> }
+pub open spec fn st_init() -> St { St { s0: None, s1: None, s2: None, s3: None, s4: None, s5: None, s6: None } }
+pub open spec fn st_set(st: St, k: int, v: Option<int>) -> St {
+    if k == 0 { St { s0: v, ..st } } else if k == 1 { St { s1: v, ..st } } else if k == 2 { St { s2: v, ..st } } else if k == 3 { St { s3: v, ..st } }
+    else if k == 4 { St { s4: v, ..st } } else if k == 5 { St { s5: v, ..st } } else { St { s6: v, ..st } }
+}
+pub open spec fn opt_id<T: Sect>(o: Option<T>) -> Option<int> { match o { Some(v) => Some(v.id()), None => None } }
+pub open spec fn st_of(h: Option<Header>, da: Option<DeliveryAnnotations>, ma: Option<MessageAnnotations>, p: Option<Properties>, ap: Option<ApplicationProperties>, b: Option<Body>, f: Option<Footer>) -> St {
+    St { s0: opt_id(h), s1: opt_id(da), s2: opt_id(ma), s3: opt_id(p), s4: opt_id(ap), s5: opt_id(b), s6: opt_id(f) }
+}
+/// what the visitor does with a token stream: up to 7 (descriptor, value) pairs, each stored by the descriptor's section kind
+pub open spec fn run(st: St, toks: Seq<Token>, count: int) -> St
+    decreases toks.len(),
+{
+    if count >= 7 || toks.len() == 0 { st }
+    else if !(toks[0] is Desc) || field_of_code(toks[0]->Desc_0) is None { st }     // (the visitor fails here)
+    else {
+        let k = kind_of_field(field_of_code(toks[0]->Desc_0)->Some_0);
+        if toks.len() == 1 { st_set(st, k, None) }
+        else if !(toks[1] is Val) { st }                                             // (the visitor fails here)
+        else { run(st_set(st, k, Some(toks[1]->Val_0.id)), toks.skip(2), count + 1) }
+    }
+}
+
+impl FieldVisitor {
+//@@ fn file=fe2o3-amqp-types/src/messaging/message/mod.rs impl=`impl de::Visitor<'_> for FieldVisitor` name=visit_u64
+//@@ generics
+//@@ nowhere
+//@@ ret Result<Field, SerError>
+//@@ subst `serde_amqp::serde::de::Error::custom(` => `SerError::custom(` rule=R9
+//@@ spec
+    ensures
+        r is Ok <==> field_of_code(v) is Some,                     // [C03.message.section-codes] a section is recognised by its AMQP descriptor code: 0x70 header, 0x71 delivery-annotations, 0x72 message-annotations, 0x73 properties, 0x74 application-properties, 0x75-0x77 body, 0x78 footer
+        r is Ok ==> Some(r->Ok_0) == field_of_code(v),
+//@@ end
+}
+pub struct FieldVisitor {}
+pub struct Visitor {}
+impl Visitor {
+//@@ fn file=fe2o3-amqp-types/src/messaging/message/mod.rs impl=`~impl<'de,B>de::Visitor<'de>forVisitor<B>` name=visit_seq
+//@@ qmark
+//@@ generics
+//@@ nowhere
+//@@ param seq : SeqS
+//@@ ret Result<Message, SerError>
+//@@ subst `let mut body: Option<B> = None;` => `let mut body: Option<Body> = None;` rule=R7
+//@@ subst `let deserializable: Option<B::Body> = ` => `let deserializable: Option<Body> = ` rule=R7
+//@@ subst `deserializable.map(<B as FromBody>::from_body)` => `deserializable` rule=R7
+//@@ subst `B::from_empty_body().map_err(de::Error::custom)` => `from_empty_body()` rule=R7
+//@@ entry
+    let ghost orig = seq.rest@;
+//@@ loop 0
+        invariant
+            0 <= count <= 7,
+            run(st_of(header, delivery_annotations, message_annotations, properties, application_properties, body, footer), seq.rest@, count as int) == run(st_init(), orig, 0),
+        ensures
+            st_of(header, delivery_annotations, message_annotations, properties, application_properties, body, footer) == run(st_init(), orig, 0),
+        decreases 7 - count,
+//@@ loopstart 0
+    let ghost pre = seq.rest@;
+//@@ loopend 0
+    assert(pre.len() >= 2 ==> pre.drop_first().drop_first() =~= pre.skip(2));
+//@@ spec
+    ensures
+        r is Ok ==> ({
+            let m = r->Ok_0;
+            let s = run(st_init(), seq.rest@, 0);
+            &&& opt_id(m.header) == s.s0 && opt_id(m.delivery_annotations) == s.s1 && opt_id(m.message_annotations) == s.s2           // [C03.message.visitor] every section read from the wire ends up in the field of its kind
+            &&& opt_id(m.properties) == s.s3 && opt_id(m.application_properties) == s.s4 && opt_id(m.footer) == s.s6
+            &&& s.s5 is Some ==> Some(m.body.id()) == s.s5
+        }),
+//@@ end
+}
+
+// ---------------------------------------------------------------------------------------------------------------
+// round trip at the level of sections: what serialize hands out, read back by visit_seq, is the same message
+
+pub open spec fn code_of_kind(k: int, bc: u64) -> u64 { if k == 5 { bc } else if k == 6 { 0x78 } else { (0x70 + k) as u64 } }
+/// the token stream of a sequence of sections: each is its descriptor followed by its value
+pub open spec fn toks_of(es: Seq<Emitted>, bc: u64) -> Seq<Token>
+    decreases es.len(),
+{ if es.len() == 0 { Seq::<Token>::empty() } else { seq![Token::Desc(code_of_kind(es[0].kind, bc)), Token::Val(es[0])] + toks_of(es.drop_first(), bc) } }
+pub open spec fn fold_set(st: St, es: Seq<Emitted>) -> St
+    decreases es.len(),
+{ if es.len() == 0 { st } else { fold_set(st_set(st, es[0].kind, Some(es[0].id)), es.drop_first()) } }
+
+pub proof fn lemma_run(st: St, es: Seq<Emitted>, bc: u64, count: int)
+    requires 0x75 <= bc <= 0x77, count >= 0, count + es.len() <= 7, forall|i: int| 0 <= i < es.len() ==> 0 <= #[trigger] es[i].kind <= 6,
+    ensures run(st, toks_of(es, bc), count) == fold_set(st, es),
+    decreases es.len(),
+{
+    if es.len() > 0 {
+        let t = toks_of(es, bc);
+        let k = es[0].kind;
+        assert(t[0] == Token::Desc(code_of_kind(k, bc)) && t[1] == Token::Val(es[0]));
+        assert(t.skip(2) =~= toks_of(es.drop_first(), bc));
+        assert(kind_of_field(field_of_code(code_of_kind(k, bc))->Some_0) == k);
+        lemma_run(st_set(st, k, Some(es[0].id)), es.drop_first(), bc, count + 1);
+    }
+}
+pub proof fn lemma_fold_concat(st: St, a: Seq<Emitted>, b: Seq<Emitted>)
+    ensures fold_set(st, a + b) == fold_set(fold_set(st, a), b),
+    decreases a.len(),
+{
+    if a.len() == 0 { assert(a + b =~= b); }
+    else {
+        assert((a + b)[0] == a[0] && (a + b).drop_first() =~= a.drop_first() + b);
+        lemma_fold_concat(st_set(st, a[0].kind, Some(a[0].id)), a.drop_first(), b);
+    }
+}
+pub proof fn lemma_fold_opt<T: Sect>(st: St, o: Option<T>)
+    ensures fold_set(st, opt_sect(o)) == (match o { Some(v) => st_set(st, T::kind(), Some(v.id())), None => st }),
+{
+    reveal_with_fuel(fold_set, 2);
+    if o is Some { assert(opt_sect(o).drop_first() =~= Seq::<Emitted>::empty()); }
+}
+/// [C03.message.round-trip] for every message (every combination of optional sections, any body descriptor 0x75..0x77): the sections written by
+/// Message::serialize, presented to the visitor as (descriptor, value) pairs, are rebuilt into a message with the same sections
+pub proof fn lemma_message_round_trip(m: Message, bc: u64)
+    requires 0x75 <= bc <= 0x77,
+    ensures run(st_init(), toks_of(sections_of(m), bc), 0) == st_of(m.header, m.delivery_annotations, m.message_annotations, m.properties, m.application_properties, Some(m.body), m.footer),
+{
+    let s0 = opt_sect(m.header); let s1 = opt_sect(m.delivery_annotations); let s2 = opt_sect(m.message_annotations); let s3 = opt_sect(m.properties);
+    let s4 = opt_sect(m.application_properties); let s5 = seq![Emitted { kind: 5, id: m.body.id() }]; let s6 = opt_sect(m.footer);
+    lemma_run(st_init(), sections_of(m), bc, 0);
+    let a0 = st_init();
+    lemma_fold_concat(a0, s0 + s1 + s2 + s3 + s4 + s5, s6);
+    lemma_fold_concat(a0, s0 + s1 + s2 + s3 + s4, s5);
+    lemma_fold_concat(a0, s0 + s1 + s2 + s3, s4);
+    lemma_fold_concat(a0, s0 + s1 + s2, s3);
+    lemma_fold_concat(a0, s0 + s1, s2);
+    lemma_fold_concat(a0, s0, s1);
+    lemma_fold_opt(a0, m.header); let a1 = fold_set(a0, s0);
+    lemma_fold_opt(a1, m.delivery_annotations); let a2 = fold_set(a1, s1);
+    lemma_fold_opt(a2, m.message_annotations); let a3 = fold_set(a2, s2);
+    lemma_fold_opt(a3, m.properties); let a4 = fold_set(a3, s3);
+    lemma_fold_opt(a4, m.application_properties); let a5 = fold_set(a4, s4);
+    reveal_with_fuel(fold_set, 2);
+    assert(s5.drop_first() =~= Seq::<Emitted>::empty());
+    let a6 = fold_set(a5, s5);
+    lemma_fold_opt(a6, m.footer);
+}
+
 /// Option::filter (std): keeps the value exactly when the predicate holds for it
 pub assume_specification<T, P: FnOnce(&T) -> bool>[ Option::<T>::filter ](o: Option<T>, p: P) -> (r: Option<T>)
     requires o is Some ==> p.requires((&o->Some_0,)),
